@@ -18,6 +18,51 @@ theorem stopForPause_inv (s : PState) : PInv (stopForPause s).1 := by
   unfold stopForPause Loader.setOnline
   simp
 
+theorem pauseCheck_paused (s : PState) (b : Bool) : (pauseCheck s b).2.paused = s.paused := rfl
+
+theorem afterLoad_inv (s : PState) (hnp : s.paused = false) (b : Bool) (cont : PState → PState × List Ev)
+    (hc : ∀ s', s'.paused = false → PInv (cont s').1) : PInv (afterLoad s b cont).1 := by
+  unfold afterLoad
+  cases hpc : pauseCheck s b with
+  | mk p s1 =>
+    have hs1 : s1.paused = false := by
+      have := pauseCheck_paused s b
+      rw [hpc] at this
+      rw [this]; exact hnp
+    cases p with
+    | true => exact stopForPause_inv _
+    | false => exact hc s1 hs1
+
+theorem afterResult_inv (s : PState) (hnp : s.paused = false) (n : LNode) (rest : LT) (res : Result)
+    (ev1 : List Ev) (cont : PState → PState × List Ev)
+    (hc : ∀ s', s'.paused = false → PInv (cont s').1) : PInv (afterResult s n rest res ev1 cont).1 := by
+  unfold afterResult
+  cases hew : endsWith s n res with
+  | some ee =>
+    obtain ⟨e', e⟩ := ee
+    simp only
+    cases hpc : pauseCheck s false with
+    | mk p s1 =>
+      cases p with
+      | true => exact stopForPause_inv _
+      | false =>
+        have hs1 : s1.paused = false := by
+          have := pauseCheck_paused s false
+          rw [hpc] at this
+          rw [this]; exact hnp
+        intro hp
+        simp [hs1] at hp
+  | none =>
+    simp only
+    cases hh : handle s.R n rest res with
+    | mk r2 rest2 =>
+      obtain ⟨evs, go⟩ := rest2
+      cases go with
+      | true =>
+        simp only
+        exact afterLoad_inv { s with R := r2 } hnp _ _ hc
+      | false => intro hp; simp [hnp] at hp
+
 theorem driveP_inv : ∀ (fuel : Nat) (s : PState), PInv s → PInv (driveP fuel s).1 := by
   intro fuel
   induction fuel with
@@ -25,32 +70,30 @@ theorem driveP_inv : ∀ (fuel : Nat) (s : PState), PInv s → PInv (driveP fuel
   | succ fuel ih =>
     intro s h
     rw [driveP]
-    split
-    · exact h
-    · rename_i hg
+    by_cases hg : (s.R.phase != Phase.running || s.paused) = true
+    · rw [if_pos hg]; exact h
+    · rw [if_neg hg]
       have hnp : s.paused = false := by
         cases hp : s.paused with
         | false => rfl
         | true => simp [hp] at hg
-      split
-      · intro hp; simp [hnp] at hp
-      · rename_i n rest _
-        split
-        · intro hp; simp [hnp] at hp
-        · rename_i r1 ev1 res _
-          split
-          · rename_i r2 evs _
-            unfold afterLoad
-            simp only
-            split
-            · exact stopForPause_inv _
-            · rename_i s1 hpc
-              have hs1 : s1.paused = false := by
-                unfold pauseCheck at hpc
-                simp only [Prod.mk.injEq] at hpc
-                rw [← hpc.2]; exact hnp
-              exact ih s1 (fun hp => by simp [hs1] at hp)
-          · intro hp; simp [hnp] at hp
+      cases hpe : s.pendingErr with
+      | some e' => intro hp; simp [hnp] at hp
+      | none =>
+        simp only
+        cases htodo : s.R.todo with
+        | nil => intro hp; simp [hnp] at hp
+        | cons n rest =>
+          simp only
+          cases hln : loadNode s.R n with
+          | mk r1 rest1 =>
+            obtain ⟨ev1, ores⟩ := rest1
+            cases ores with
+            | none => intro hp; simp [hnp] at hp
+            | some res =>
+              simp only
+              refine afterResult_inv _ ?_ _ _ _ _ _ (fun s' hs' => ih s' (fun hp => by simp [hs'] at hp))
+              exact hnp
 
 theorem applyStatus_offline (r : Requestor.State) (st : Nat) (h : r.L.isOpen = false) :
     (applyStatus r st).L.isOpen = false := by
@@ -68,22 +111,17 @@ theorem ingest_isOpen (l : Loader.State) (md : List (Cid × Action)) (bl : List 
 
 theorem resumeP_inv (s : PState) (hnp : s.paused = false) : PInv (resumeP s).1 := by
   unfold resumeP
-  split
-  · split
-    · split
-      · unfold afterLoad
+  cases hw : Loader.wake s.R.L with
+  | mk l1 ores =>
+    cases ores with
+    | none => intro hp; simp [hnp] at hp
+    | some r =>
+      cases htodo : s.R.todo with
+      | nil => intro hp; simp [hnp] at hp
+      | cons n rest =>
         simp only
-        split
-        · exact stopForPause_inv _
-        · rename_i s1 hpc
-          have hs1 : s1.paused = false := by
-            unfold pauseCheck at hpc
-            simp only [Prod.mk.injEq] at hpc
-            rw [← hpc.2]; exact hnp
-          exact driveP_inv _ s1 (fun hp => by simp [hs1] at hp)
-      · intro hp; simp [hnp] at hp
-    · intro hp; simp [hnp] at hp
-  · intro hp; simp [hnp] at hp
+        exact afterResult_inv { s with R := { s.R with L := l1 } } hnp _ _ _ _ _
+          (fun s' hs' => driveP_inv _ s' (fun hp => by simp [hs'] at hp))
 
 theorem step_inv (s : PState) (o : PauseResume.Op) (h : PInv s) : PInv (PauseResume.step s o).1 := by
   cases o with
@@ -197,6 +235,7 @@ structure LocalP (s : PState) (st : List (Cid × Blk)) (hookAt : List Nat) : Pro
   noTerm  : s.R.terminalErr = none
   noTok   : s.pauseTok = false
   hooks   : s.hookAt = hookAt
+  noPend  : s.pendingErr = none
 
 theorem handle_local (r : Requestor.State) (n : LNode) (rest : LT) (b : Blk) :
     handle r n rest { data := some b, err := none, loc := true } =
@@ -222,9 +261,16 @@ theorem driveP_node_local (st : List (Cid × Blk)) (hookAt : List Nat) (n : LNod
   rw [driveP]
   have hg : (s.R.phase != Phase.running || s.paused) = false := by simp [hrun, hnp]
   rw [if_neg (by simp [hg])]
+  rw [hl.noPend]
+  simp only
   rw [htodo]
   simp only
   rw [hln]
+  simp only
+  have hew : ∀ (x : PState), endsWith x n { data := some b, err := none, loc := true } = none := by
+    intro x; unfold endsWith; split <;> rfl
+  unfold afterResult
+  rw [hew]
   simp only
   rw [handle_local]
   simp only [List.nil_append, afterLoad, pauseCheck, Option.isNone_none, Bool.true_and, hl.noTok, Bool.or_false,
@@ -257,12 +303,14 @@ theorem driveP_local (st : List (Cid × Blk)) (hookAt : List Nat) :
       have hd : driveP (fuel + 1) s = ({ s with R := (finish s.R).1 }, (finish s.R).2) := by
         rw [driveP]
         have hg : (s.R.phase != Phase.running || s.paused) = false := by simp [hrun, hnp]
-        rw [if_neg (by simp [hg]), htodo]
+        rw [if_neg (by simp [hg]), hl.noPend]
+        simp only
+        rw [htodo]
       have hf : finish s.R = ({ s.R with phase := .finished, L := Loader.cleanup s.R.L }, []) := by
         unfold finish
         simp [hl.noTerm]
       rw [hd, hf]
-      refine ⟨[], [], rfl, htodo, rfl, ⟨⟨hl.off.closed, rfl, hl.off.nopend⟩, hl.store, hl.noTerm, hl.noTok, hl.hooks⟩,
+      refine ⟨[], [], rfl, htodo, rfl, ⟨⟨hl.off.closed, rfl, hl.off.nopend⟩, hl.store, hl.noTerm, hl.noTok, hl.hooks, hl.noPend⟩,
         Or.inr ⟨hnp, rfl, rfl, rfl⟩⟩
   | cons n rest ih =>
     intro s fuel htodo hrun hnp hl hhas hfuel
@@ -275,12 +323,12 @@ theorem driveP_local (st : List (Cid × Blk)) (hookAt : List Nat) :
       cases hh : hookAt.contains (s.R.nBlocks + 1) with
       | true =>
         simp only [if_true]
-        refine ⟨[n], rest, rfl, rfl, rfl, ⟨⟨rfl, hoff1.empty, hoff1.nopend⟩, hst1, hl.noTerm, rfl, hl.hooks⟩,
+        refine ⟨[n], rest, rfl, rfl, rfl, ⟨⟨rfl, hoff1.empty, hoff1.nopend⟩, hst1, hl.noTerm, rfl, hl.hooks, hl.noPend⟩,
           Or.inl ⟨rfl, hrun, by simp, hh, rfl⟩⟩
       | false =>
         simp only [Bool.false_eq_true, if_false]
         have hl3 : LocalP { s with R := { s.R with L := l1, todo := rest, nBlocks := s.R.nBlocks + 1 }, pauseTok := false }
-            st hookAt := ⟨hoff1, hst1, hl.noTerm, rfl, hl.hooks⟩
+            st hookAt := ⟨hoff1, hst1, hl.noTerm, rfl, hl.hooks, hl.noPend⟩
         obtain ⟨pre, post, hpp, htd, hnb, hlp, hcase⟩ := ih
           { s with R := { s.R with L := l1, todo := rest, nBlocks := s.R.nBlocks + 1 }, pauseTok := false } fuel rfl hrun hnp hl3
           (fun m hm => hhas m (List.mem_cons_of_mem _ hm)) (by simp at hfuel; omega)
@@ -388,7 +436,7 @@ theorem step_local (st : List (Cid × Blk)) (hookAt : List Nat) (lt : LT) (hc : 
         simp [hp.1, hp.2]
       rw [hstep]
       let s1 : PState := { s with paused := false, R := { s.R with requestSent := false } }
-      have hl1 : LocalP s1 st hookAt := ⟨hq.base.off, hq.base.store, hq.base.noTerm, hq.base.noTok, hq.base.hooks⟩
+      have hl1 : LocalP s1 st hookAt := ⟨hq.base.off, hq.base.store, hq.base.noTerm, hq.base.noTok, hq.base.hooks, hq.base.noPend⟩
       obtain ⟨pre, post, hpp, htd, hnb, hlp, hcase⟩ := driveP_local st hookAt (lt.drop k) s1
         (fuelFor { s.R with requestSent := false }) hq.todo hp.2 rfl hl1
         (fun n hn => hc n (List.mem_of_mem_drop hn))
@@ -446,7 +494,7 @@ theorem request_local (st : List (Cid × Blk)) (hookAt : List Nat) (lt : LT) (u 
   unfold PauseResume.request
   simp only
   let s1 : PState := { s0 with R := { s0.R with todo := lt, phase := .running, userSkip := u } }
-  have hl1 : LocalP s1 st hookAt := ⟨⟨rfl, rfl, rfl⟩, rfl, rfl, rfl, rfl⟩
+  have hl1 : LocalP s1 st hookAt := ⟨⟨rfl, rfl, rfl⟩, rfl, rfl, rfl, rfl, rfl⟩
   obtain ⟨pre, post, hpp, htd, hnb, hlp, hcase⟩ := driveP_local st hookAt lt s1
     (fuelFor { s0.R with todo := lt, phase := .running, userSkip := u }) rfl rfl rfl hl1 hc (by simp [fuelFor])
   have hlen : pre.length ≤ lt.length := by
